@@ -76,6 +76,8 @@ TRANSLATORS = {
     "CertGen.v": ("tr/cert.py", ["varlink-certification/src/main.rs"]),
     "ProxyGen.v": ("tr/proxy.py", ["varlink-cli/src/proxy.rs"]),
     "WorkerGen.v": ("tr/worker.py", ["varlink/src/server.rs"]),
+    "CliGen.v": ("tr/cli.py", ["varlink-cli/src/main.rs"]),
+    "GenFrontGen.v": ("tr/genfront.py", ["varlink_generator/src/lib.rs"]),
     "ShapeGen.v": ("tr/shapes.py", [""]),
 }
 
